@@ -312,7 +312,7 @@ def run_check(prop, tier, seed, replay=None):
     inconclusive = None
     if dead and len(dead) * 2 > len(specs):
         inconclusive = 'most shards died: ' + '; '.join(dead[:3])
-    crashed = [d for d in dead if 'watchdog after' not in d]
+    crashed = [d for d in dead if 'watchdog after' not in d] + [str(x) for x in total.inconclusive if str(x).startswith('harness exception')]
     if crashed and not inconclusive:
         # a shard that died of an exception observed nothing: its part of the workload is undecided, and that must not read as held
         inconclusive = 'shard crashed (%d of %d): %s' % (len(crashed), len(specs), crashed[0][-300:].replace('\n', ' | '))
